@@ -1,0 +1,43 @@
+//go:build verif
+// +build verif
+
+package server
+
+import (
+	"net"
+	"time"
+
+	"github.com/XiaoMi/Gaea/models"
+	"github.com/XiaoMi/Gaea/util"
+	"github.com/XiaoMi/Gaea/util/sync2"
+)
+
+// VerifC35Server is a Server around the manager `m` and the listener `ln` with
+// just the fields Server.onConn needs (no admin server, no statistics export):
+// verification hook for property C35, whole handshakes over real connections.
+func VerifC35Server(m *Manager, ln net.Listener) (*Server, error) {
+	tw, err := util.NewTimeWheel(timeWheelUnit, timeWheelBucketsNum)
+	if err != nil {
+		return nil, err
+	}
+	tw.Start()
+	if m.statistics != nil && m.statistics.generalLogger == nil {
+		m.statistics.generalLogger = &verifC38Logger{}
+	}
+	return &Server{
+		closed:                     sync2.NewAtomicBool(false),
+		listener:                   ln,
+		sessionTimeout:             time.Hour,
+		tw:                         tw,
+		manager:                    m,
+		ServerVersion:              util.CompactServerVersion("5.7.25-gaea"),
+		ServerVersionCompareStatus: util.NewVersionCompareStatus("5.7.25-gaea"),
+		ServerConfig:               &models.Proxy{ServerVersion: "5.7.25-gaea", DefaultCharset: "utf8mb4", ProtoType: ln.Addr().Network()},
+	}, nil
+}
+
+// VerifC35OnConn is Server.onConn: what the accept loop runs for a connection.
+func (s *Server) VerifC35OnConn(c net.Conn) { s.onConn(c) }
+
+// VerifC35Stop stops the time wheel of a VerifC35Server.
+func (s *Server) VerifC35Stop() { s.tw.Stop() }
